@@ -241,6 +241,13 @@ func (server *SugarDB) VerifSnapshotSync() error {
 	return server.snapshotEngine.TakeSnapshot()
 }
 
+// VerifTCPClientCount returns the number of TCP connections this instance has registered.
+func (server *SugarDB) VerifTCPClientCount() int {
+	server.connInfo.mut.RLock()
+	defer server.connInfo.mut.RUnlock()
+	return len(server.connInfo.tcpClients)
+}
+
 // VerifEmbeddedDatabase returns the logical database selected for the embedded API.
 func (server *SugarDB) VerifEmbeddedDatabase() int {
 	server.connInfo.mut.RLock()
